@@ -477,6 +477,17 @@ func (g *gen) typ(v visible, sc *scope, depth int) *Type {
 		return ty
 	case 5:
 		ty := &Type{Ref: Ref{Mod: "", Name: "union"}}
+		// two identities of one name in different modules, both as identityref
+		// members: the members differ only in which object their base is
+		for i := range v.idents {
+			for j := i + 1; j < len(v.idents); j++ {
+				if v.idents[i].Name == v.idents[j].Name && v.idents[i].Mod != v.idents[j].Mod && t.Chance(1, 2) {
+					a, b := v.idents[i], v.idents[j]
+					ty.Union = append(ty.Union, &Type{Ref: Ref{Mod: "", Name: "identityref"}, Base: &a}, &Type{Ref: Ref{Mod: "", Name: "identityref"}, Base: &b})
+					return ty
+				}
+			}
+		}
 		nk := 4
 		if len(tds) > 0 {
 			nk++
